@@ -376,6 +376,15 @@ pub fn run(tier: Tier, seed: u64, out: &str) {
             }
         }
     }
+    // the grammar of the theorem `classify_render`: structure to the model, text to the counter
+    let mut clangs: Vec<(String, CommentSyntax)> =
+        builtins().into_iter().filter(|(_, s)| enc_syntax(s) == enc_syntax(&crate::cgrammar::c_family())).collect();
+    if clangs.is_empty() {
+        clangs.push(("user-defined C family".to_string(), crate::cgrammar::c_family()));
+    }
+    for _ in 0..tier.scale(8_000, 300_000) {
+        crate::cgrammar::emit(&mut sink, &mut r, &clangs);
+    }
     if let Ok(bin) = std::env::var("SGVERIF_BIN") {
         let scratch = std::env::var("SGVERIF_SCRATCH").unwrap_or_else(|_| "/verif/.build/scratch/c02".to_string());
         for _ in 0..tier.scale(4, 60) {
